@@ -78,6 +78,7 @@ type Engine struct {
 	assumes   []string
 	depthNow  int
 	nPoison   int
+	pin       []uint64
 	varAlpha  map[int][]uint64 // inputs drawn as selectors of a small alphabet: index -> letters
 	splitRet  bool
 	tValues   time.Duration
